@@ -660,6 +660,7 @@ func (vfs *OrefaFS) OpenFile(name string, flag int, perm fs.FileMode) (avfs.File
 		nd:       child,
 		openMode: om,
 		name:     name,
+		absName:  absPath,
 		at:       at,
 	}
 
